@@ -502,7 +502,10 @@ def s_graph_signature_names(_ctx):
             m = helper.make_model(g, opset_imports=[helper.make_opsetid("", 18)])
             used = {}
 
+            scope_depth = []
+
             def m_body(interp, slf, graph, opsets, indent=0):
+                scope_depth.append(len(slf._name_remappings))
                 for vi_ in graph.input:
                     used[vi_.name] = interp.call(interp.getattr(slf, "_translate_onnx_var"), [vi_.name])
                 return "    pass"
@@ -518,6 +521,9 @@ def s_graph_signature_names(_ctx):
             except Exception as e:  # noqa: BLE001
                 ok, detail = False, f"rename={rename}, inputs {names}: {type(e).__name__}: {e}"
             agg.ob("C13.export.graph_signature.parameters_are_the_names_the_body_uses_for_the_inputs", ok, detail, cl, case=f"rename={rename} {names}")
+            agg.ob("C13.export.graph.body_is_translated_inside_a_name_remapping_scope", scope_depth == [1] and len(ex._name_remappings) == 0,
+                   f"rename={rename}: while the body of a model graph is translated there are {scope_depth} name-remapping scopes (a for-loop in the body "
+                   f"writes into the innermost one, as it does for functions); {len(ex._name_remappings)} left afterwards", cl, case=f"rename={rename}")
     return {"obligations": agg.obs, "paths": n, "covered": [f"signature_cases={n}"], "notes": [], "functions": []}
 
 
